@@ -9,35 +9,14 @@ export VERIF_DIR="$PWD"
 export GOFLAGS=-mod=mod GOPROXY=off GOSUMDB=off GOTOOLCHAIN=local CGO_ENABLED=1
 mkdir -p bin work replays evidence
 cp "${VERIF_REPO:-/repo}"/go.sum sim/go.sum 2>/dev/null
-# The simulator is built against a scratch copy of plenc's working tree (VERIF_REPO: another
-# copy than /repo, e.g. a background run's snapshot) in which cmd/autoyield has put a yield
-# point before every synchronisation operation (sync/atomic, sync.Mutex, sync.Map, sync.Pool...),
-# in addition to the hand-placed verifYield sites. The copy is removed after the build.
-src="${VERIF_REPO:-/repo}"
-scratch="$(mktemp -d /tmp/verif-plenc-XXXXXX)" || exit 2
-trap 'rm -rf "$scratch" "$VERIF_DIR/bin/autoyield-$$" "$VERIF_DIR"/sim/go.alt.$$.mod "$VERIF_DIR"/sim/go.alt.$$.sum' EXIT
-rsync -a --exclude .git "$src"/ "$scratch"/ || { echo "cannot copy $src" >&2; exit 2; }
-( cd sim && go build -o "$VERIF_DIR/bin/autoyield-$$" ./cmd/autoyield ) 2>work/build.$$.log || { echo "BUILD FAILED (autoyield):" >&2; cat work/build.$$.log >&2; rm -f work/build.$$.log; exit 2; }
-"$VERIF_DIR/bin/autoyield-$$" "$scratch" >work/autoyield.$$.log 2>&1 || { echo "autoyield failed (harness trouble, not a violation):" >&2; cat work/autoyield.$$.log >&2; rm -f work/autoyield.$$.log; exit 2; }
-rm -f work/autoyield.$$.log
-export VERIF_PLENC_SRC="$scratch"
-sed "s|=> /repo\$|=> $scratch|" sim/go.mod > sim/go.alt.$$.mod; cp sim/go.sum sim/go.alt.$$.sum
-modflag="-modfile=go.alt.$$.mod"
-build() { # build <output> <extra flags...>
-  local out="$1"; shift
-  ( cd sim && go build $modflag -tags verif "$@" -o "$out.tmp.$$" ./cmd/sim ) 2>work/build.$$.log || {
-    echo "BUILD FAILED (harness trouble, not a violation):" >&2; cat work/build.$$.log >&2; rm -f work/build.$$.log; exit 2; }
-  rm -f work/build.$$.log
-  mv "$out.tmp.$$" "$out"
-}
-# per-invocation binaries so that concurrent checks do not step on each other
 bin="$VERIF_DIR/bin/sim-$prop-$$"
-build "$bin"
+. "$VERIF_DIR/build.inc.sh"
+# per-invocation binaries so that concurrent checks do not step on each other
 export VERIF_RACE_BIN=""
 case "$prop" in
   C07|C19|C10|C11) build "$bin-race" -race; export VERIF_RACE_BIN="$bin-race" ;;
 esac
-rm -rf "$scratch" "$VERIF_DIR/bin/autoyield-$$" sim/go.alt.$$.mod sim/go.alt.$$.sum
+cleanup_scratch
 "$bin" run "$prop" "$tier"
 rc=$?
 rm -f "$bin" "$bin-race"
